@@ -13,6 +13,7 @@ import (
 	"github.com/gauss-project/aurorafs/pkg/boson"
 	"github.com/gauss-project/aurorafs/pkg/cac"
 	"github.com/gauss-project/aurorafs/pkg/crypto"
+	"github.com/gauss-project/aurorafs/pkg/zzverif/keyalpha"
 	"github.com/gauss-project/aurorafs/pkg/zzverif/mc"
 	"golang.org/x/crypto/sha3"
 )
@@ -85,10 +86,30 @@ func verifRefValid(addr, data []byte) (valid bool, why string, owner []byte) {
 
 // ---- alphabets ------------------------------------------------------------------
 
+// verifKeys: three ordinary keys, then (appended by verifInitKeys) one boundary
+// key per keyalpha class: public X / Y / both with a leading zero byte, X / Y
+// with two leading zero bytes.
 var verifKeys = [][]byte{
 	bytes.Repeat([]byte{0x11}, 32),
 	{0x63, 0x4f, 0xb5, 0xa8, 0x72, 0x39, 0x6d, 0x96, 0x93, 0xe5, 0xc9, 0xf9, 0xd7, 0x23, 0x3c, 0xfa, 0x93, 0xf3, 0x95, 0xc0, 0x93, 0x37, 0x10, 0x17, 0xff, 0x44, 0xaa, 0x9a, 0xe6, 0x56, 0x4c, 0xdd},
 	append(make([]byte, 31), 0x01), // scalar 1: public key is the generator
+}
+
+var verifKeyNames = []string{"0x11..", "fixed test key", "scalar 1"}
+
+func verifInitKeys() error {
+	if len(verifKeys) > 3 {
+		return nil
+	}
+	ks, err := keyalpha.Boundary()
+	if err != nil {
+		return err
+	}
+	for _, k := range ks {
+		verifKeys = append(verifKeys, k.Priv)
+		verifKeyNames = append(verifKeyNames, fmt.Sprintf("%s (stream position %d)", k.Name, k.Index))
+	}
+	return nil
 }
 
 func verifID(i int) []byte {
@@ -109,6 +130,7 @@ func verifID(i int) []byte {
 type verifBase struct {
 	id, owner, payload, data, addr []byte
 	wrappedAddr                    []byte
+	indep                          []byte // id||sig||payload signed with go-ethereum, not with the code under test
 }
 
 const (
@@ -120,6 +142,7 @@ const (
 	verifOpTrunc
 	verifOpExtend
 	verifOpRebindID
+	verifOpIndependent
 )
 
 type verifOp struct {
@@ -127,14 +150,17 @@ type verifOp struct {
 	val       byte
 }
 
-func verifOps(n int, header byte, full bool) []verifOp {
-	ops := []verifOp{{kind: verifOpNone}}
+func verifOps(n int, header byte, full, bothXor bool) []verifOp {
+	ops := []verifOp{{kind: verifOpNone}, {kind: verifOpIndependent}}
 	other := header ^ 0x07 // 27 <-> 28
 	for _, v := range []byte{header + 4, other, other + 4, 0, 26, 35} {
 		ops = append(ops, verifOp{kind: verifOpHeader, pos: 96, val: v})
 	}
 	for k := 0; k < 32; k++ {
-		ops = append(ops, verifOp{kind: verifOpAddr, pos: k, val: 0x01}, verifOp{kind: verifOpAddr, pos: k, val: 0x80})
+		ops = append(ops, verifOp{kind: verifOpAddr, pos: k, val: 0x01})
+		if bothXor {
+			ops = append(ops, verifOp{kind: verifOpAddr, pos: k, val: 0x80})
+		}
 	}
 	for k := 0; k < 3; k++ {
 		ops = append(ops, verifOp{kind: verifOpAddrShape, pos: k})
@@ -175,26 +201,32 @@ func TestVerifC05(t *testing.T) {
 	if C > 4096 {
 		t.Fatalf("BROKEN-CHECK C05 is meant to run at the scaled geometry (ChunkSize=%d)", C)
 	}
+	if err := verifInitKeys(); err != nil {
+		t.Fatalf("BROKEN-CHECK %v", err)
+	}
+	nk := len(verifKeys)
 	dataLens := []int{1, 32, C}
 	thorough := mc.Thorough()
 	baseMemo := map[int]*verifBase{}
 	opsMemo := map[int][]verifOp{}
 
 	mc.Run(t, mc.Config{ID: "C05", Name: "C05-soc", MaxDev: -1, Params: map[string]interface{}{
-		"keys":              "3 fixed secp256k1 keys (0x11.., a fixed test key, scalar 1)",
+		"keys":              verifKeyNames,
+		"key_search":        "boundary keys: first key of each class in the stream priv_i = keccak256('verif-boundary-key-stream'||BE64(i)); bound 2^13 positions (one leading zero byte), 2^20 (both coordinates / two leading zero bytes)",
 		"ids":               []string{"zero", "0xff..", "fixed pattern"},
 		"wrapped_data_lens": dataLens,
 		"chunk_size_C":      C,
-		"combos":            "all 27 (key,id,len): unmutated round trip, signature header byte values, address mutations; byte mutations and truncations on the 9 combos with len index = (key+id) mod 3 (quick) / all 27 (thorough)",
+		"combos":            "all keys x ids x lens: unmutated round trip (owner compared with go-ethereum's PubkeyToAddress for every key), a chunk signed independently with go-ethereum, signature header byte values, id re-binding, address lengths, every address byte (xor 0x01; also xor 0x80 on full combos); byte mutations and truncations on one combo per key (id index = key mod 3, len index = (key+id) mod 3) in quick / all combos in thorough",
+		"independent":       "id||sig||span||data with sig = go-ethereum crypto.Sign over the EIP-191 hash of keccak(id||wrapped address), v = 27+recid, address = keccak(id||PubkeyToAddress(key)): must be Valid and parse to that owner",
 		"data_mutation":     "every byte of id(32)+signature(65)+span(8)+data, xor 0x01 and xor 0x80",
 		"header_byte":       "signature byte 64 set to {v+4, other recovery id, other recovery id+4, 0, 26, 35}",
 		"address_mutation":  "every byte xor 0x01 and xor 0x80; 31 bytes; 33 bytes; empty",
 		"truncation":        "to every length 0..len-1, and extension by one zero byte",
 		"id_rebinding":      "id byte {0,15,31} xor {0x01,0x80} with the address recomputed as keccak(id'||owner) (signed payload replayed under another id)",
 	}}, func(x *mc.X) {
-		combo := x.Choose(27)
+		combo := x.Choose(nk * 9)
 		ki, ii, li := combo/9, (combo/3)%3, combo%3
-		full := thorough || li == (ki+ii)%3
+		full := thorough || (ii == ki%3 && li == (ki+ii)%3)
 
 		b := baseMemo[combo]
 		if b == nil {
@@ -218,6 +250,13 @@ func TestVerifC05(t *testing.T) {
 			b = &verifBase{id: id, owner: gethcrypto.PubkeyToAddress(gk.PublicKey).Bytes(), payload: append(span, wd...),
 				data: append([]byte{}, sch.Data()...), addr: append([]byte{}, sch.Address().Bytes()...)}
 			b.wrappedAddr = verifBMT(b.payload)
+			// the same chunk made without the code under test
+			digest := verifKeccak(id, b.wrappedAddr)
+			msg := verifKeccak([]byte(fmt.Sprintf("\x19Ethereum Signed Message:\n%d", len(digest))), digest)
+			isig, err := gethcrypto.Sign(msg, gk)
+			x.NoErr(err, "geth Sign")
+			isig[64] += 27
+			b.indep = append(append(append([]byte{}, id...), isig...), b.payload...)
 			baseMemo[combo] = b
 		}
 		n := len(b.data)
@@ -227,11 +266,11 @@ func TestVerifC05(t *testing.T) {
 			if n > 96 {
 				hdr = b.data[96]
 			}
-			ops = verifOps(n, hdr, full)
+			ops = verifOps(n, hdr, full, full)
 			opsMemo[combo] = ops
 		}
 		op := ops[verifChooseIdx(x, len(ops))]
-		x.Logf("key %d id %d wrapped data %d bytes: serialized %d bytes, header byte %d", ki, ii, dataLens[li], n, b.data[96])
+		x.Logf("key %d [%s] id %d wrapped data %d bytes: serialized %d bytes, header byte %d", ki, verifKeyNames[ki], ii, dataLens[li], n, b.data[96])
 
 		data := append([]byte{}, b.data...)
 		addr := append([]byte{}, b.addr...)
@@ -239,6 +278,10 @@ func TestVerifC05(t *testing.T) {
 		switch op.kind {
 		case verifOpNone:
 			x.Logf("unmutated")
+		case verifOpIndependent:
+			data = append([]byte{}, b.indep...)
+			addr = verifKeccak(b.id, b.owner)
+			x.Logf("chunk signed with go-ethereum, address = keccak(id||PubkeyToAddress(key))")
 		case verifOpData:
 			data[op.pos] ^= op.val
 			switch {
@@ -301,6 +344,25 @@ func TestVerifC05(t *testing.T) {
 		want, why, refOwner := verifRefValid(addr, data)
 		x.Logf("Valid=%v FromChunk err=%v reference valid=%v %s", got, ferr, want, why)
 
+		if op.kind == verifOpIndependent {
+			if !want || !bytes.Equal(refOwner, b.owner) {
+				x.Broken("harness built an independent chunk its own reference rejects: %s", why)
+			}
+			x.Nontrivial()
+			x.Tag("independently-signed")
+			x.Check(got, "rejects-independently-signed-chunk", "a chunk signed by key %d [%s] outside the code under test (address = keccak(id||key's Ethereum address %x)) is not Valid", ki, verifKeyNames[ki], b.owner)
+			x.Check(ferr == nil && s != nil, "rejects-independently-signed-chunk", "FromChunk failed on an independently signed chunk: %v", ferr)
+			x.Check(bytes.Equal(s.owner, b.owner), "owner-is-not-the-keys-ethereum-address", "FromChunk reports owner %x, the key's Ethereum address is %x (key %d [%s])", s.owner, b.owner, ki, verifKeyNames[ki])
+			x.Outcome("independent->valid")
+			return
+		}
+		if op.kind == verifOpNone {
+			// owner-specific clauses first, so that a wrong owner derivation gets its own key
+			x.Check(ferr == nil && s != nil, "fromchunk-rejects-signed-chunk", "FromChunk failed on the freshly signed chunk: %v", ferr)
+			x.Check(bytes.Equal(s.owner, b.owner), "owner-is-not-the-keys-ethereum-address", "owner parsed back as %x, the key's Ethereum address is %x (key %d [%s])", s.owner, b.owner, ki, verifKeyNames[ki])
+			x.Check(bytes.Equal(b.addr, verifKeccak(b.id, b.owner)), "address-not-keccak-id-owner", "signed chunk address %x, keccak(id||owner) %x", b.addr, verifKeccak(b.id, b.owner))
+		}
+
 		// accepted only if the signature over keccak(id||wrapped address) recovers
 		// the owner the address commits to; hence every alteration of id, signature,
 		// payload or address that is not another encoding of the same authentic
@@ -310,15 +372,16 @@ func TestVerifC05(t *testing.T) {
 		if op.kind == verifOpNone {
 			x.Check(want, "reference-rejects-signed-chunk", "reference rejects the freshly signed chunk: %s", why)
 			x.Check(got, "signed-chunk-invalid", "freshly signed chunk is not Valid")
-			x.Check(ferr == nil && s != nil, "fromchunk-rejects-signed-chunk", "FromChunk failed on the freshly signed chunk: %v", ferr)
 			x.Check(bytes.Equal(s.id, b.id), "roundtrip-id", "id %x parsed back as %x", b.id, s.id)
-			x.Check(bytes.Equal(s.owner, b.owner), "roundtrip-owner", "owner parsed back as %x, key's Ethereum address is %x", s.owner, b.owner)
 			x.Check(bytes.Equal(refOwner, b.owner), "reference-owner", "reference recovers %x, key's address is %x", refOwner, b.owner)
 			x.Check(s.chunk != nil && bytes.Equal(s.chunk.Address().Bytes(), b.wrappedAddr) && bytes.Equal(s.chunk.Data(), b.payload), "roundtrip-wrapped", "wrapped chunk differs after parsing")
-			x.Check(bytes.Equal(b.addr, verifKeccak(b.id, b.owner)), "address-not-keccak-id-owner", "signed chunk address %x, keccak(id||owner) %x", b.addr, verifKeccak(b.id, b.owner))
 			ca, err := CreateAddress(b.id, b.owner)
 			x.Check(err == nil && bytes.Equal(ca.Bytes(), verifKeccak(b.id, b.owner)), "createaddress", "CreateAddress differs from keccak(id||owner)")
 			x.Check(len(b.data) == 32+65+len(b.payload) && bytes.Equal(b.data[:32], b.id) && bytes.Equal(b.data[97:], b.payload), "serialization", "signed chunk is not id||sig||span||data")
+			if ki >= 3 {
+				x.Tag("boundary-key-roundtrip")
+				x.Nontrivial()
+			}
 			x.Outcome("signed->valid")
 			return
 		}
